@@ -114,9 +114,13 @@ C04(e) ==
   /\ (e.ev = "beWrite" /\ e.p \in DOMAIN cellOf /\ At(built, e.p, "") = e.v) => e.k = cellOf[e.p].k
 
 C05(e) ==
-  e.ev = "benter" /\ e.p \notin skipP =>
-     /\ (cfg.SyncRead /\ At(lastRd, e.p, [c |-> "none", v |-> ""]).c # "beerr") => ~FreshBuilt(e.k)
-     /\ now >= At(failUntil, e.k, 0)
+  /\ e.ev = "benter" /\ e.p \notin skipP =>
+        /\ (cfg.SyncRead /\ At(lastRd, e.p, [c |-> "none", v |-> ""]).c # "beerr") => ~FreshBuilt(e.k)
+        /\ now >= At(failUntil, e.k, 0)
+  \* "while its result stays fresh": a built result that the backend already reports as expired although the time the
+  \* caller asked for has not passed leads straight to the next build (the reader re-stores it, which hides it from the
+  \* guard above)
+  /\ (e.ev = "beRead" /\ e.c = "expired" /\ cfg.SyncRead) => ~FreshBuilt(e.k)
 
 C06(e) ==
   /\ e.ev = "beWrite" =>
